@@ -190,6 +190,27 @@ theorem C18_accepted_equals_genuine_modulo_hints (md5 : Str → Str) (g m : Str)
     simp only [pdh, List.append_assoc] at h
     exact key _ _ h
 
+/-! ## sequences of requests through one Conn -/
+
+/-- The answer to a request does not depend on what the same `Conn` served before: in every
+history, the k-th result is `collectionGet` of the k-th script alone. In particular
+`C18_only_valid_returned` holds for every request of every history — an answer is hash-tested
+however often the same backend has answered the same request correctly before. -/
+theorem C18_history_independent (md5 : Str → Str) (history : List Script) (k : Nat) (s : Script)
+    (hk : history[k]? = some s) :
+    (collectionGetSeq md5 history)[k]? = some (collectionGet md5 s) := by
+  simp [collectionGetSeq, List.getElem?_map, hk]
+
+theorem C18_only_valid_returned_in_history (md5 : Str → Str) (history : List Script) (k : Nat)
+    (s : Script) (c : Coll) (hk : history[k]? = some s) (hlen : s.req.length ≠ 27)
+    (h : (collectionGetSeq md5 history)[k]? = some (.ok c)) :
+    (∃ lc, s.loc = .coll lc ∧ pdhOK md5 s.req lc.manifest = true ∧ c = lc) ∨
+    (s.loc = .err 404 ∧ s.fwd = [] ∧
+      ∃ rid rc, (rid, Answer.coll rc) ∈ s.order ∧ pdhOK md5 s.req rc.manifest = true ∧
+        c = (if rid = [] then rc else { rc with manifest := rewriteManifest rc.manifest rid })) := by
+  rw [C18_history_independent md5 history k s hk] at h
+  exact C18_only_valid_returned md5 s c hlen (Option.some.inj h)
+
 /-! ## by-UUID requests (conn.go:248-255): relayed without a hash test -/
 
 /-- A by-UUID request returns the chosen backend's collection; its manifest is rewritten with the
